@@ -93,6 +93,41 @@ Theorem C15_list_objects_exact : forall keys raw path,
 Proof. intros keys raw path. apply list_objects_exact_lemma, client_prefix_pfx_ok. Qed.
 Print Assumptions C15_list_objects_exact.
 
+(** a path begins with "dir/" exactly when its segments are all segments of [dir] followed by at
+    least one more (any strings): a sibling whose NAME merely begins with the same characters
+    ("obj10" next to "obj1") is not below it *)
+Theorem C15_below_path_segments : forall dir rel,
+  starts_with (dir ++ [slash]) rel = true <->
+  exists s, s <> [] /\ segments rel = segments dir ++ s.
+Proof. exact below_segments. Qed.
+Print Assumptions C15_below_path_segments.
+
+(** the recursive listing of a directory path (list_objects, s3.rs:754-756, with the prefix
+    built by join_with_trailing_slash, s3.rs:761) returns exactly the stored paths below
+    "path/": each once, in key order, nothing of a sibling; every prefix value, every path *)
+Theorem C15_list_objects_below_path : forall keys raw path,
+  let cprefix := client_prefix raw in
+  relb path = true -> keys_boundary_ok cprefix keys ->
+  exists rels, list_all keys cprefix path false = Ok (rels, []) /\
+    map (under cprefix) rels = filter (starts_with (under cprefix (path ++ [slash]))) keys /\
+    forall rel, In rel rels <->
+                In (under cprefix rel) keys /\ exists s, s <> [] /\ segments rel = segments path ++ s.
+Proof. intros keys raw path. apply list_objects_below_lemma, client_prefix_pfx_ok. Qed.
+Print Assumptions C15_list_objects_below_path.
+
+(** purge_object (s3.rs:557-594) without a failing request: succeeds, deletes exactly the keys
+    below "<prefix>/<root>/" (one DELETE each, in key order) and keeps every other key with its
+    content - as remove_dir_all of the object root does on the file system *)
+Theorem C15_purge_exact : forall raw root bk,
+  let cprefix := client_prefix raw in
+  relb root = true -> keys_boundary_ok cprefix (bk_keys bk) ->
+  let out := purge_object None cprefix root (init_st bk) in
+  fst out = Ok tt /\
+  st_b (snd out) = filter (fun kv => negb (starts_with (under cprefix (root ++ [slash])) (fst kv))) bk /\
+  st_log (snd out) = map RDelete (filter (starts_with (under cprefix (root ++ [slash]))) (bk_keys bk)).
+Proof. intros raw root bk. apply purge_exact_lemma, client_prefix_pfx_ok. Qed.
+Print Assumptions C15_purge_exact.
+
 (** the former known finding prefix-trailing-slash as a regression statement: prefixes given
     as "pre/", "pre//", "/" (only slashes = bucket root) and "/pre" (leading slash kept) *)
 Theorem C15_prefix_slash_cases :
@@ -120,4 +155,16 @@ Example C15_nonvacuous :
   keys_of_tree (b "pre") (TDir [(b "a", TDir [(b "x", TFile (b "1")); (b "empty", TDir [])]); (b "f", TFile (b "2"))])
     = [(b "pre/a/x", b "1"); (b "pre/f", b "2")] /\
   scan_roots 100 keys (b "pre") = Some (Ok ([b "a"; b "b/c"], [[]; b "a"; b "b"; b "b/c"])).
+Proof. repeat split; vm_compute; reflexivity. Qed.
+
+(** Non-vacuity of the purge theorem: object roots where one is a string prefix of the others *)
+Example C15_purge_nonvacuous :
+  let bk := [(b "p/obj1-copy/inventory.json", b "1"); (b "p/obj1/0=ocfl_object_1.0", b "2");
+             (b "p/obj1/v1/content/a", b "3"); (b "p/obj10/inventory.json", b "4"); (b "p/obj1x/v1/content/a", b "5")] in
+  relb (b "obj1") = true /\
+  list_all (bk_keys bk) (client_prefix (b "p/")) (b "obj1") false = Ok ([b "obj1/0=ocfl_object_1.0"; b "obj1/v1/content/a"], []) /\
+  fst (purge_object None (client_prefix (b "p/")) (b "obj1") (init_st bk)) = Ok tt /\
+  st_b (snd (purge_object None (client_prefix (b "p/")) (b "obj1") (init_st bk))) =
+    [(b "p/obj1-copy/inventory.json", b "1"); (b "p/obj10/inventory.json", b "4"); (b "p/obj1x/v1/content/a", b "5")] /\
+  segments (b "obj10/inventory.json") = [b "obj10"; b "inventory.json"].
 Proof. repeat split; vm_compute; reflexivity. Qed.
